@@ -348,13 +348,13 @@ fn run_m<M: RawMutex>(cfg: &Cfg, ops: &[Op], run: &mut Run) {
                                 run.class(CL_ACQ_AFTER_WAIT);
                             }
                             run.note(|| format!("poll slot {} waker {} -> Ready (acquired {})", s, op.b, n));
-                            if n == 0 && slots[s].polls > 1 {
+                            if fair && n == 0 && slots[s].polls > 1 {
                                 run.violate("C07", "zero-request-waited", format!("acquire(0) in slot {} did not complete on its first poll", s));
                             }
                             acquired!(rel, n, Some(s));
                         }
                         Some(Poll::Pending) => {
-                            if n == 0 {
+                            if fair && n == 0 {
                                 run.violate("C07", "zero-request-pending", format!("acquire(0) in slot {} returned Pending", s));
                             }
                             if was_pending {
@@ -411,7 +411,7 @@ fn run_m<M: RawMutex>(cfg: &Cfg, ops: &[Op], run: &mut Run) {
                             acquired!(rel, n, None);
                         }
                         None => {
-                            if n == 0 {
+                            if fair && n == 0 {
                                 run.violate("C07", "zero-request-refused", "try_acquire(0) returned None".into());
                             }
                         }
